@@ -419,10 +419,17 @@ func (ex *Executor) verifIntrinsic(st *State, fr *Frame, name string, args []Val
 		return StringV{fmt.Sprintf("%s[%d]", ex.strArg(args[0]), ex.cint(st, args[1].(*Term)))}
 	case "verifAssume":
 		c := args[0].(*Term)
+		if !(c.IsConst() && c.val == 1) {
+			ex.flushAsserts(st)
+		}
 		ex.assume(st, c)
 		return nil
 	case "verifAssert":
 		ex.assert(st, args[0].(*Term), ex.strArg(args[1]))
+		return nil
+	case "verifAssertNow":
+		ex.assert(st, args[0].(*Term), ex.strArg(args[1]))
+		ex.flushAsserts(st)
 		return nil
 	case "verifFail":
 		ex.assert(st, tt.False, ex.strArg(args[0]))
@@ -447,6 +454,9 @@ func (ex *Executor) verifIntrinsic(st *State, fr *Frame, name string, args []Val
 		n := ex.cint(st, args[1].(*Term))
 		v := ex.freshVar(64, nm)
 		ex.assume(st, tt.Cmp(OpUlt, v, ex.c64(n)))
+		if pv, ok := ex.opt.Params[nm]; ok { // job split: this job explores one value only
+			ex.assume(st, tt.Eq(v, ex.c64(int(pv))))
+		}
 		c := ex.cint(st, v)
 		st.choices = append(st.choices, fmt.Sprintf("%s=%d", nm, c))
 		// children forked inside cint do not carry the choice text; they re-run this
@@ -494,6 +504,7 @@ func (ex *Executor) symBytes(st *State, nm string, n, c int) Value {
 
 func (ex *Executor) assert(st *State, c *Term, label string) {
 	ex.Asserts++
+	c = ex.simp(st, c)
 	if c.IsConst() && c.val == 1 {
 		ex.AssertsProved++
 		return
@@ -501,22 +512,77 @@ func (ex *Executor) assert(st *State, c *Term, label string) {
 	if st.model.Eval(c) == 0 {
 		ex.recordViolation(st, label, st.model)
 		// continue with the assertion assumed, if possible
+		ex.flushAsserts(st)
 		f, m := ex.feasible(st, c)
 		if !f {
 			panic(pathEnd{})
 		}
 		st.model = m
-		st.pc = append(st.pc, c)
+		st.addPC(c)
 		return
 	}
-	q := append(append([]*Term(nil), st.pc...), ex.tt.Not(c))
-	switch ex.sol.Check(q) {
-	case Sat:
-		ex.recordViolation(st, label, ex.sol.GetModel())
-	case Unsat:
-		ex.AssertsProved++
-	default:
-		ex.inconclusive("solver unknown on assertion %q at %s", label, ex.where(st))
+	// defer the query: assertions are discharged in one batch (flushAsserts)
+	st.pending_ = append(st.pending_, pendingAssert{c, label, ex.where(st), ex.stack(st)})
+}
+
+// flushAsserts decides all deferred assertions of the path with one query.
+// Later path constraints only narrow the models, so a model of pc ∧ ¬A_i found
+// here is also a model at the point where A_i was stated (no false alarm); the
+// models cut away by a branch are covered by the sibling path, which inherited
+// the same deferred assertions. Assumptions flush first (they are not retroactive).
+func (ex *Executor) flushAsserts(st *State) {
+	for len(st.pending_) > 0 {
+		conj := ex.tt.True
+		for _, p := range st.pending_ {
+			conj = ex.tt.And(conj, p.c)
+		}
+		if conj.IsConst() && conj.val == 1 {
+			ex.AssertsProved += len(st.pending_)
+			st.pending_ = nil
+			return
+		}
+		q := append(append([]*Term(nil), st.pc...), ex.tt.Not(conj))
+		switch ex.check("assert", q) {
+		case Unsat:
+			ex.AssertsProved += len(st.pending_)
+			for _, p := range st.pending_ {
+				st.addPC(p.c)
+			}
+			st.pending_ = nil
+			return
+		case Sat:
+			m := ex.sol.GetModel()
+			idx := -1
+			for i, p := range st.pending_ {
+				if m.Eval(p.c) == 0 {
+					idx = i
+					break
+				}
+			}
+			if idx < 0 {
+				ex.inconclusive("model of a failed assertion batch satisfies every assertion")
+				st.pending_ = nil
+				return
+			}
+			p := st.pending_[idx]
+			ex.recordViolationAt(st, p.label, p.where, p.stack, m)
+			// assume it and look at the rest
+			st.pending_ = append(st.pending_[:idx:idx], st.pending_[idx+1:]...)
+			f, m2 := ex.feasible(st, p.c)
+			if !f {
+				st.pending_ = nil
+				panic(pathEnd{})
+			}
+			st.model = m2
+			st.addPC(p.c)
+			if len(ex.Violations) >= ex.opt.MaxViolations {
+				st.pending_ = nil
+				return
+			}
+		default:
+			ex.inconclusive("solver unknown on an assertion batch ending at %s", ex.where(st))
+			st.pending_ = nil
+			return
+		}
 	}
-	st.pc = append(st.pc, c)
 }
